@@ -185,4 +185,55 @@ mod kani_eval {
         core::mem::forget(m);
         core::mem::forget(state);
     }
+
+    //@ props=C04,C02 tier=thorough fns=DynCtx::eval_dyn,DynCtx::match_call_pattern,CallPattern::next_responder,find_responder_by_call_index,SharedState::bump_ordered_call_index bounds="one ordered call through eval_dyn (stable signature): method table with 1 entry, 2 ordered patterns with arbitrary increasing slot ranges, the second with a 2-segment response chain (boundary n1 < 2^60), arbitrary global index g and arbitrary prior match count c of the owner; the owner accepts"
+    /// C04/C02: an accepted ordered call gets the response its OWN match count selects inside the slot range
+    /// (pattern-relative position, never the global index), bumps exactly that pattern's counter and the global index.
+    #[kani::proof]
+    #[kani::unwind(6)]
+    #[kani::stub(std::fmt::format, crate::verif::fmt_format_stub)]
+    fn c04_eval_dyn_ordered_response() {
+        use crate::call_pattern::DynCallOrderResponder;
+        let b: [usize; 4] = kani::any();
+        kani::assume(b[0] <= b[1] && b[1] <= b[2] && b[2] < b[3]);
+        let g: usize = kani::any();
+        kani::assume(b[2] <= g && g < b[3]);
+        let c: usize = kani::any();
+        kani::assume(c < usize::MAX);
+        let n1: usize = kani::any();
+        kani::assume(n1 < (1 << 60));
+        let mut p0 = pat(b[0]..b[1], 0, 0, 0);
+        p0.responders = vec![DynCallOrderResponder { response_index: 0, responder: DynResponder::Unmock }];
+        let mut p1 = pat(b[2]..b[3], c, 0, 0);
+        p1.responders = vec![
+            DynCallOrderResponder { response_index: 0, responder: DynResponder::Unmock },
+            DynCallOrderResponder { response_index: n1, responder: DynResponder::ApplyDefaultImpl },
+        ];
+        let info = <TestFn as MockFn>::info();
+        let mut map = BTreeMap::new();
+        map.insert(
+            info.type_id,
+            FnMocker { info, pattern_match_mode: PatternMatchMode::InOrder, call_patterns: vec![p0, p1] },
+        );
+        let state = SharedState::new(map, FallbackMode::Error);
+        state.kani_set_ordered_index(g);
+        let ctx = DynCtx { info, shared_state: &state, input_debugger: &no_inputs };
+        let res = ctx.eval_dyn(&|_p, _rep| Ok(true));
+        let fm = state.fn_mockers.get(&info.type_id).unwrap();
+        match &res {
+            Ok(EvalResult::Responder(r)) => {
+                let want = if c < n1 { 0 } else { 1 };
+                assert!(core::ptr::eq(r.dyn_responder, &fm.call_patterns[1].responders[want].responder));
+                assert!(r.pat_index.0 == 1);
+            }
+            _ => assert!(false, "an accepted ordered call must get a responder"),
+        }
+        assert!(fm.call_patterns[1].call_counter.kani_actual() == c + 1);
+        assert!(fm.call_patterns[0].call_counter.kani_actual() == 0);
+        assert!(state.kani_ordered_index() == g + 1);
+        kani::cover!(c < n1 && g > c, "first segment although the global index is larger");
+        kani::cover!(c >= n1 && b[2] > 0, "second segment");
+        core::mem::forget(res);
+        core::mem::forget(state);
+    }
 }
